@@ -657,6 +657,7 @@ impl OrdSpecImpl for Version { open spec fn obeys_cmp_spec() -> bool { true } op
     g.emit('m_vtwins', K.grammar_twins())
     g.emit('m_vtwins', K.PARSE_SPEC)
     g.emit('m_vtwins', K.PARSE_POST)
+    g.emit('m_vtwins', K.RANGE_SET_SPEC)
 
     def u_extras_type():
         sl = item(LIB, r'^enum Extras \{', 'enum Extras')
@@ -806,6 +807,46 @@ impl OrdSpecImpl for Version { open spec fn obeys_cmp_spec() -> bool { true } op
         g.rec(sl, 'Version::parse_str', mod, 'fn', dropped='generic AsRef<str> entry (R15), the payload of the errors (R16)')
         g.emit(mod, head + '    {\n        ' + entry + 'let mut input = text;' + rest + '\n}\n')
     g.unit('Version::parse_str', u_version_parse)
+
+    def u_range_parse():
+        lo, hi = impl_span(RNG, r'^impl Range \{')
+        sl = fn_in(RNG, lo, hi, 'parse', 'Range::parse')
+        t = sl.verbatim
+        m = re.match(r"\s*(?:///[^\n]*\n\s*|#\[[^\n]*\n\s*)*pub fn parse<S: AsRef<str>>\(input: S\) -> Result<Self, SemverError> \{\s*let mut input = input\.as_ref\(\);", t)
+        if not m:
+            raise AnchorLost('Range::parse: `pub fn parse<S: AsRef<str>>(input: S) -> Result<Self, SemverError> { let mut input = input.as_ref(); ..`')
+        rest = t[m.end():]
+        sl.rewrites.append("R15 `parse<S: AsRef<str>>(input: S)` + `let mut input = input.as_ref();` -> `parse_str<'s>(text: &'s str)` + `let mut input = text;`")
+        code = mask_code(rest)
+        out, pos, nrep = [], 0, 0
+        for mm in re.finditer(r'\bSemverError\s*\{', code):
+            if mm.start() < pos:
+                continue
+            e = match_brace(code, mm.end() - 1)
+            out.append(rest[pos:mm.start()])
+            out.append('verif_semver_error()')
+            pos = e
+            nrep += 1
+        out.append(rest[pos:])
+        rest = ''.join(out)
+        sl.rewrites.append('R16 %d `SemverError { .. }` literals -> verif_semver_error() (error payload: C17, not under contract)' % nrep)
+        # R19: `range_set.parse_next(&mut input)` -> `range_set(&mut input)`: winnow's blanket impl for functions is exactly this call
+        # (`fn parse_next(&mut self, i: &mut I) -> PResult<O, E> { self(i) }`); Verus loses the identity of a function value behind `&mut`
+        if 'range_set.parse_next(&mut input)' not in rest:
+            raise AnchorLost('Range::parse: `range_set.parse_next(&mut input)`')
+        rest = rest.replace('range_set.parse_next(&mut input)', 'range_set(&mut input)')
+        sl.rewrites.append('R19 `range_set.parse_next(&mut input)` -> `range_set(&mut input)` (the blanket impl of Parser for functions is this call)')
+        mod = 'm_vg_rparse'
+        g.private_mods.add(mod)
+        head = "impl Range {\n    pub fn parse_str<'s>(text: &'s str) -> (r: Result<Range, SemverError>)\n" + K.RPARSE_CONTRACT + '\n'
+        if 'Range::parse_str' in g.stub:
+            g.stubbed.append('Range::parse_str')
+            g.rec(sl, 'Range::parse_str', mod, 'fn', dropped='BODY NOT VERIFIED (stubbed as external_body)')
+            g.emit(mod, head.replace('    pub fn parse_str', '    #[verifier::external_body]\n    pub fn parse_str') + '    { unimplemented!() }\n}\n')
+            return
+        g.rec(sl, 'Range::parse_str', mod, 'fn', dropped='generic AsRef<str> entry (R15), the payload of the errors (R16)')
+        g.emit(mod, head + '    {\n        broadcast use winnow_defs, grammar_defs, def_range_set_reads_intro;\n        let mut input = text;' + rest + '\n}\n')
+    g.unit('Range::parse_str', u_range_parse)
     g.emit('m_vprops', P('vprops.rs'))
     g.emit('m_vprops', P('vcomplete.rs'))
     g.emit('m_vprops', P('vsound.rs'))
